@@ -96,7 +96,8 @@ def check_build(ctx, prog, ex, symbols, settings, case, rng, dynamic):
         kw['min_leads'] = min_leads
     case = dict(case, settings=kw)
     try:
-        Model = fsic.build_model(symbols, **kw)
+        # both class templates (with / without type hints) declare the same lists and lengths
+        Model = fsic.build_model(symbols, with_type_hints=(len(case.get('script', '')) + len(kw)) % 2 == 0, **kw)
     except Exception as e:
         ctx.violation('build-failed', f'build_model(**{kw}) raised {type(e).__name__}: {str(e)[:200]}', case)
         return
